@@ -91,7 +91,7 @@ def children(trace, start, budget, used0=None):
 
 
 def explore(run, budget, prefix=(), max_execs=None, on_violation=None, stop_on_first=False,
-            level0=0):
+            level0=0, stop_after_bad=None, is_known=None):
     """Explore the subtree rooted at `prefix`.  budget: {'thread': n, 'timer': m, 'total': t}.
 
     Returns (Stats, violations) where violations is a list of (prefix, violation dict).
@@ -100,6 +100,8 @@ def explore(run, budget, prefix=(), max_execs=None, on_violation=None, stop_on_f
     viols = []
     frontier = [list(prefix)]
     level = level0
+    bad_execs = 0
+    per_sig = {}
     while frontier:
         nxt = []
         for p in frontier:
@@ -121,11 +123,21 @@ def explore(run, budget, prefix=(), max_execs=None, on_violation=None, stop_on_f
                 continue
             st.outcomes.add(okey(r.outcome))
             for v in r.violations:
-                viols.append((p, v))
+                # keep a couple of full records per signature (they carry the replay and the trace summary)
+                n_sig = per_sig.get(v.get("sig"), 0)
+                per_sig[v.get("sig")] = n_sig + 1
+                if n_sig < 2:
+                    viols.append((p, v))
                 if on_violation:
                     on_violation(p, v)
             if r.violations and stop_on_first:
                 return st, viols
+            if stop_after_bad is not None and any(not (is_known and is_known(v.get("sig"))) for v in r.violations):
+                # a verdict is already certain: do not spend the whole budget on a broken tree
+                bad_execs += 1
+                if bad_execs >= stop_after_bad:
+                    st.cap_note = f"stopped after {bad_execs} violating executions (unlisted violations found)"
+                    return st, viols
             nxt.extend(children(r.trace, len(p), budget))
         frontier = nxt
         level += 1
